@@ -69,7 +69,7 @@ ASSUMPTIONS = [
 
 D0 = datetime.datetime(2023, 5, 1, 12, 0, 0)
 DTYPES = ["uint8", "uint16", "float32", "float64"]
-K2D = ["array", "array-rgb", "scalar", "image", "optical", "scalar-series", "optical-series", "scalar-series1", "optical-series1"]
+K2D = ["array", "array-rgb", "scalar", "image", "optical", "scalar-series", "optical-series", "scalar-series1", "optical-series1", "scalar-series-appended"]
 KRGB = ["array-rgb", "image", "optical", "optical-series", "optical-series1"]
 K3D = ["array3d", "scalar3d", "scalar3d-series"]
 KCLASS = {
@@ -86,6 +86,8 @@ KCLASS = {
     # series with exactly ONE time step (a series all the same)
     "scalar-series1": "scalar-series",
     "optical-series1": "vector-series",
+    # a series assembled with the public append(): one slice + an appended two-slice series
+    "scalar-series-appended": "scalar-series",
 }
 SHAPES = {
     "quick": {"2d": [(5, 5), (6, 8)], "wide": [(5, 5), (6, 8)], "3d": [(3, 4, 5)], "checker": [(40, 60)], "drift": [(160, 200)]},
@@ -182,7 +184,7 @@ def cases(tier):
                 for dt in cfg["dtypes"] or DTYPES:
                     if tier == "quick" and cfg["weight"] == "heavy" and cfg["dtypes"] is None and dt in ("uint16", "float32"):
                         continue
-                    if kind.endswith("series1") and (dt in ("uint16", "float32") or shape != SHAPES[tier][cfg["shapes"]][0]):
+                    if (kind.endswith("series1") or kind.endswith("appended")) and (dt in ("uint16", "float32") or shape != SHAPES[tier][cfg["shapes"]][0]):
                         continue
                     out.append({"kind": "bfs", "config": name, "input": kind, "dtype": dt, "shape": list(shape), "depth": DEPTH[tier][cfg["weight"]]})
     for c1, c2, kinds in PAIRS:
@@ -230,7 +232,12 @@ def payload(full_shape, dtype):
         return ((idx * 7 + 3) % 200 + 1).astype(np.uint8)
     if dtype == "uint16":
         return ((idx * 131) % 40000 + 257).astype(np.uint16)
-    return (((idx * 5) % 509 + 1) / 512.0).astype(dtype)
+    vals = ((idx * 5) % 509 + 1) / 512.0
+    if dtype == "float64":
+        # low-order bits that single precision cannot hold (still exact in double precision): a detour
+        # through float32 anywhere in a correction shows up in an exact comparison
+        vals = vals + ((idx % 7) + 1) * 2.0**-40
+    return vals.astype(dtype)
 
 
 def _as_dtype(unit_img, dtype):
@@ -321,6 +328,11 @@ def _make_input(kind, shape, dtype, special="2d"):
         return darsia.Image(rgb(), space_dim=2, scalar=False, dimensions=dims, origin=[1.0, 4.0], time=1.5, name="general")
     if kind == "optical":
         return darsia.OpticalImage(rgb(), dimensions=dims, color_space="RGB", name="optical")
+    if kind == "scalar-series-appended":
+        data = payload(shape + (3,), dtype)
+        first = darsia.ScalarImage(data[..., :1].copy(), dimensions=dims, series=True, time=[0.0], name="scalar-series-appended")
+        first.append(darsia.ScalarImage(data[..., 1:].copy(), dimensions=dims, series=True, time=[2.5, 7.0], name="tail"))
+        return first
     if kind == "scalar-series1":
         return darsia.ScalarImage(payload(shape + (1,), dtype), dimensions=dims, series=True, time=[2.5], name="scalar-series1")
     if kind == "optical-series1":
